@@ -806,6 +806,32 @@ def monitorC16 (cx : Ctx) : List Finding := Id.run do
       | _ => pure ()
   return (out.reverse.foldl (fun acc f => if acc.any fun g => g.clause == f.clause && g.sid == f.sid then acc else acc ++ [f]) [])
 
+/-- The environment assumption of the drop theorems (`XStep.dropApi`, `XStep.dropEvent`,
+`drop_specD.hsame`), checked on the implementation's traces: the players of one endpoint have the
+same `last_frame` at the moment they are marked disconnected (their inputs travel in the same
+packets). If a trace ever shows otherwise, `C07_survivor_timeline` does not speak about that run. -/
+def monitorDropAssumption (cx : Ctx) : List Finding := Id.run do
+  let mut out : List Finding := []
+  for s in cx.p2p do
+    let players := s.players
+    let mut marked : List Nat := []
+    for c in cx.sc.calls do
+      if c.sid != s.sid then continue
+      if c.result == "PANIC" then break
+      let mut fresh : List (Nat × Nat × Int) := []
+      for ((disc, lf), h) in c.status.zipIdx do
+        if disc && !marked.contains h then
+          marked := h :: marked
+          match players.find? (·.1 == h) with
+          | some (_, 'R', addr) => fresh := (h, addr, lf) :: fresh
+          | _ => pure ()
+      for (h, addr, lf) in fresh do
+        for (h2, addr2, lf2) in fresh do
+          if h < h2 && addr == addr2 && lf != lf2 then
+            out := mkF cx "C07" "assumption-shared-last-frame" s.sid c.lineNo
+              s!"players {h} and {h2} behind address {addr} are marked disconnected in the same call with different last frames ({lf} vs {lf2}): the environment assumption of the drop theorems does not hold on this run" :: out
+  return (out.reverse.foldl (fun acc f => if acc.any fun g => g.clause == f.clause && g.sid == f.sid then acc else acc ++ [f]) [])
+
 /-- Three or more peers with a player dropping out is the space of C10 (where the implementation
 is known to diverge and panic); the other properties quantify over two-peer drops or no drop. -/
 def Ctx.multiPeerDrop (cx : Ctx) : Bool := cx.p2p.length ≥ 3 && cx.anyDisconnect
@@ -819,7 +845,8 @@ def runMonitor2 (prop : String) (cx : Ctx) : List Finding :=
   match prop with
   | "C05" => monitorC05 cx
   | "C06" => monitorC06 cx ++ monitorPanics cx "C06"
-  | "C07" => monitorC07 cx ++ monitorGrounds cx "C07" ++ (if cx.p2p.length == 2 then monitorPanics cx "C07" else []) ++
+  | "C07" => monitorC07 cx ++ monitorGrounds cx "C07" ++ monitorDropAssumption cx ++
+      (if cx.p2p.length == 2 then monitorPanics cx "C07" else []) ++
       -- "spectators of that host see the same"
       ((monitorC06 cx).filterMap fun f =>
         if f.clause == "replay" || f.clause == "status" then some { f with prop := "C07", clause := s!"spectator-{f.clause}" } else none)
